@@ -8,7 +8,7 @@
    (relative to call_spec; XCodegenCall.v discharges it), the system call get `2(s)` as a whole right-hand side, over
    the expressions of XCodegenExpr.v; array names in scope (global arrays, array formals) as actuals; calls and get on
    the left spine of + - = < ~ with simple right operands (cgl), also as conditions and as the first actual of a
-   procedure-call statement whose other actuals are simple (cargs1).
+   procedure-call statement whose other actuals are simple (cargs1) and as the byte of a put statement.
    Not in the fragment: calls (and get) in right operands, subscripts and other actuals.
    The code is the one handed to OptimiseDirectives (before its three peephole rewrites).
 
@@ -158,8 +158,16 @@ Section Codegen.
         if 3 <=? og then do (c, n1) <- cge e n; Some (c ++ [LDBM 1; STAI 2; LDAC 0; SVC; LDAM 1; LDAI 1], n1) else None
     | SSys 1 [e; st] =>
         if 4 <=? og then
-          do (c1, n1) <- cge e n; do (c2, n2) <- cge st n1;
-          Some (c1 ++ [LDBM 1; STAI 2] ++ c2 ++ [LDBM 1; STAI 3; LDAC 1; SVC; LDAM 1; LDAI 1], n2)
+          if pure e then
+            do (c1, n1) <- cge e n; do (c2, n2) <- cge st n1;
+            Some (c1 ++ [LDBM 1; STAI 2] ++ c2 ++ [LDBM 1; STAI 3; LDAC 1; SVC; LDAM 1; LDAI 1], n2)
+          else if simple st && ((0 <=? off0) && (off0 <? nslots)) then
+            (* put(f(..) .., s): the byte has a call on its left spine, the stream is simple -- the byte is computed first,
+               saved in the first temporary and copied to its outgoing word (genCallActuals / loadActuals) *)
+            do (c1, n1) <- cgl e n; do (c2, n2) <- cge st n1;
+            Some (c1 ++ [LDBM 1; STAI (size - 1 - off0)] ++ [LDAM 1; LDAI (size - 1 - off0); LDBM 1; STAI 2] ++ c2 ++
+                  [LDBM 1; STAI 3; LDAC 1; SVC; LDAM 1; LDAI 1], n2)
+          else None
         else None
     | _ => None
     end.
@@ -1907,6 +1915,106 @@ Section Correct.
       + (* put: 1(e, stream) *)
         destruct args as [|e [|es [|? ?]]]; try discriminate.
         destruct (4 <=? og) eqn:Eog; [|discriminate]. apply Z.leb_le in Eog.
+        destruct (pure e) eqn:Epe.
+        2:{ (* the byte has a call on its left spine *)
+          destruct (simple es && ((0 <=? off0) && (off0 <? nslots))) eqn:Econd; [|discriminate].
+          apply andb_prop in Econd. destruct Econd as [Esr Eoff]. apply andb_prop in Eoff. destruct Eoff as [Eo1 Eo2].
+          apply Z.leb_le in Eo1. apply Z.ltb_lt in Eo2.
+          destruct (cgl' e n) as [[c1 n1]|] eqn:Ec1; [|discriminate]. cbn [obind] in Hcs.
+          destruct (cge' es n1) as [[c2 n2]|] eqn:Ec2; [|discriminate]. cbn [obind] in Hcs. inversion Hcs; subst code n'.
+          apply code_at_app in Hc. destruct Hc as (p1 & Hc1 & Hc).
+          assert (Hs1 : exists p2, code_at Cm lab p1 [LDBM 1; STAI (size - 1 - off0)] p2 /\
+                     code_at Cm lab p2 ([LDAM 1; LDAI (size - 1 - off0); LDBM 1; STAI 2] ++ c2 ++ [LDBM 1; STAI 3; LDAC 1; SVC; LDAM 1; LDAI 1]) nxt).
+          { apply (code_at_app Cm lab [LDBM 1; STAI (size - 1 - off0)]). exact Hc. }
+          clear Hc. destruct Hs1 as (p2 & Hc2 & Hc).
+          assert (Hs2 : exists p3, code_at Cm lab p2 [LDAM 1; LDAI (size - 1 - off0)] p3 /\
+                     code_at Cm lab p3 ([LDBM 1; STAI 2] ++ c2 ++ [LDBM 1; STAI 3; LDAC 1; SVC; LDAM 1; LDAI 1]) nxt).
+          { apply (code_at_app Cm lab [LDAM 1; LDAI (size - 1 - off0)] ([LDBM 1; STAI 2] ++ c2 ++ [LDBM 1; STAI 3; LDAC 1; SVC; LDAM 1; LDAI 1])). exact Hc. }
+          clear Hc. destruct Hs2 as (p3 & Hc3 & Hc).
+          assert (Hs3 : exists p4, code_at Cm lab p3 [LDBM 1; STAI 2] p4 /\ code_at Cm lab p4 (c2 ++ [LDBM 1; STAI 3; LDAC 1; SVC; LDAM 1; LDAI 1]) nxt).
+          { apply (code_at_app Cm lab [LDBM 1; STAI 2]). exact Hc. }
+          clear Hc. destruct Hs3 as (p4 & Hc4 & Hc). apply code_at_app in Hc. destruct Hc as (p5 & Hc5 & Hc).
+          assert (Hs4 : exists p6, code_at Cm lab p5 [LDBM 1; STAI 3] p6 /\ code_at Cm lab p6 [LDAC 1; SVC; LDAM 1; LDAI 1] nxt).
+          { apply (code_at_app Cm lab [LDBM 1; STAI 3] [LDAC 1; SVC; LDAM 1; LDAI 1]). exact Hc. }
+          clear Hc. destruct Hs4 as (p6 & Hc6 & Hc7).
+          one_instr Hc3 p31 Hi31. one_instr Hc3 p32 Hi32. subst p32.
+          one_instr Hc7 q5 Hi5. one_instr Hc7 q6 Hi6. one_instr Hc7 q7 Hi7. one_instr Hc7 q8 Hi8. subst q8.
+          pose proof (code_at_le _ _ _ _ _ Hc1) as L1. pose proof (code_at_le _ _ _ _ _ Hc2) as L2. pose proof (instr_at_le _ _ _ _ _ Hi31) as L31.
+          pose proof (instr_at_le _ _ _ _ _ Hi32) as L32. pose proof (code_at_le _ _ _ _ _ Hc4) as L4. pose proof (code_at_le _ _ _ _ _ Hc5) as L5.
+          pose proof (code_at_le _ _ _ _ _ Hc6) as L6. pose proof (instr_at_le _ _ _ _ _ Hi5) as M5. pose proof (instr_at_le _ _ _ _ _ Hi6) as M6.
+          pose proof (instr_at_le _ _ _ _ _ Hi7) as M7. pose proof (instr_at_le _ _ _ _ _ Hi8) as M8.
+          destruct (operands (evals f0 ge) [e; es] st0) as [vs s1|hc hs|u] eqn:Eo; cbn [bind rcase]; [| |exact I].
+          2:{ destruct (operands_left_halt _ _ _ _ _ _ _ (simple_pure es Esr) Eo) as (f1 & -> & El).
+              pose proof (run_cgl (S (S f1)) Hcall e n c1 n1 f1 (set_cur st0 eff0) m pos p1 a b inp ltac:(lia) Ec1
+                            (Rel_same _ _ _ (same_store_set_cur st0 eff0) HR0) Hcon Hc1 Hp ltac:(lia)) as R.
+              rewrite El in R. cbn [rhs_ok result_ok] in *. destruct R as (outs & Ex & (G1 & G2)). exists outs. split; [exact Ex|].
+              cbn [out_rev ncons input set_cur] in G1, G2. exact (conj G1 G2). }
+          destruct (operands_left_ret _ _ _ _ _ _ _ Eo) as (f1 & vl & sl & f2 & vr & st2 & sr & -> & El & S2 & E2 & S3 & ->).
+          pose proof (run_cgl (S (S f1)) Hcall e n c1 n1 f1 (set_cur st0 eff0) m pos p1 a b inp ltac:(lia) Ec1
+                        (Rel_same _ _ _ (same_store_set_cur st0 eff0) HR0) Hcon Hc1 Hp ltac:(lia)) as R.
+          rewrite El in R. cbn [rhs_ok] in R. destruct R as (outs & x & b1 & m1 & -> & Hx & R1 & HR1 & P1 & F1).
+          assert (Hslot : in_mem (sp + (size - 1 - off0)) = true /\ Tm (sp + (size - 1 - off0))).
+          { destruct HT_mem as [G1 G2]. unfold T, tlo, fb in *. split; [|lia]. unfold in_mem. apply andb_true_intro.
+            split; [apply Z.leb_le | apply Z.ltb_lt]; lia. }
+          destruct Hslot as [Sin ST].
+          pose proof (run_store_sp (size - 1 - off0) m1 p1 p2 (x mod W) b1 (adv inp sl) Hc2 (proj1 HR1) (proj1 (proj2 HR1)) Sin ltac:(lia)) as T2.
+          set (m2 := wr m1 (sp + (size - 1 - off0)) (x mod W)) in *.
+          assert (HR2 : Rel sl m2) by (apply Rel_wr_scratch; [left; exact ST | exact (proj1 (in_mem_range _ Sin)) | exact HR1]).
+          pose proof HR2 as (HC2 & H12 & _).
+          pose proof (exec_instr Cm lab m2 p2 p31 (LDAM 1) (x mod W) sp (adv inp sl) eq_refl Hi31 HC2 eq_refl ltac:(lia)) as T3.
+          cbn [sem fst snd] in T3. rewrite H12 in T3.
+          assert (R32 : readable (LDAI (size - 1 - off0)) sp sp) by (cbn [readable]; rewrite (in_mem_wrap _ Sin); exact Sin).
+          pose proof (exec_instr Cm lab m2 p31 p3 (LDAI (size - 1 - off0)) sp sp (adv inp sl) eq_refl Hi32 HC2 R32 ltac:(lia)) as T4.
+          cbn [sem fst snd] in T4. rewrite (in_mem_wrap _ Sin) in T4. unfold m2 in T4 at 2. rewrite rd_wr_same in T4.
+          destruct (O_facts 2 ltac:(lia)) as (Oin2 & OnP2 & On12 & OnT2 & Os2 & Opos2).
+          destruct (O_facts 3 ltac:(lia)) as (Oin3 & OnP3 & On13 & OnT3 & Os3 & Opos3).
+          destruct (O_facts 1 ltac:(lia)) as (Oin1 & _).
+          pose proof (run_store_sp 2 m2 p3 p4 (x mod W) sp (adv inp sl) Hc4 HC2 H12 Oin2 ltac:(lia)) as T5.
+          set (m3 := wr m2 (sp + 2) (x mod W)) in *.
+          assert (HR3 : Rel st2 m3).
+          { apply Rel_wr_scratch; [exact Os2 | exact Opos2|]. eapply Rel_same; [exact S2 | exact HR2]. }
+          (* the stream *)
+          destruct (run_expr es n1 c2 n2 f2 st2 vr sr m3 Ec2 E2 HR3) as [Hss2 (y & -> & Hy & Hrun2)].
+          destruct (Hrun2 p4 p5 (x mod W) sp (adv inp sl) Hc5 ltac:(lia) ltac:(lia)) as (b5 & m5 & T6 & HR5 & Hk5).
+          pose proof (run_store_sp 3 m5 p5 p6 (y mod W) b5 (adv inp sl) Hc6 (proj1 HR5) (proj1 (proj2 HR5)) Oin3 ltac:(lia)) as T7.
+          set (m6 := wr m5 (sp + 3) (y mod W)) in *.
+          assert (HR6 : Rel st2 m6) by (apply Rel_wr_scratch; [exact Os3 | exact Opos3 | exact HR5]).
+          destruct HR6 as (HC6 & H16 & HV6 & HS6).
+          assert (Hb : rd m6 (sp + 2) = x mod W).
+          { unfold m6. rewrite rd_wr_other; [|exact Opos3 | exact Opos2 | lia]. rewrite (Hk5 _ Opos2 OnT2). unfold m3. apply rd_wr_same. }
+          assert (Hs : rd m6 (sp + 3) = y mod W) by (unfold m6; apply rd_wr_same).
+          pose proof (exec_instr Cm lab m6 p6 q5 (LDAC 1) (y mod W) sp (adv inp sl) eq_refl Hi5 HC6 I ltac:(lia)) as T8.
+          cbn [sem fst snd] in T8. change (1 mod W) with 1 in T8.
+          assert (Hi2' : in_mem (wrap (rd m6 1 + 2)) = true) by (rewrite H16, (in_mem_wrap _ Oin2); exact Oin2).
+          assert (Hi3' : in_mem (wrap (rd m6 1 + 3)) = true) by (rewrite H16, (in_mem_wrap _ Oin3); exact Oin3).
+          pose proof (exec_svc_put Cm lab m6 q5 q6 sp (adv inp sl) Hi6 HC6 ltac:(lia) Hi2' Hi3') as T9.
+          rewrite H16, (in_mem_wrap _ Oin2), (in_mem_wrap _ Oin3), Hb, Hs, mod_256 in T9.
+          pose proof (exec_instr Cm lab m6 q6 q7 (LDAM 1) 1 sp (adv inp sl) eq_refl Hi7 HC6 eq_refl ltac:(lia)) as T10.
+          cbn [sem fst snd] in T10. rewrite H16 in T10.
+          assert (R11 : readable (LDAI 1) sp sp) by (cbn [readable]; rewrite (in_mem_wrap _ Oin1); exact Oin1).
+          pose proof (exec_instr Cm lab m6 q7 nxt (LDAI 1) sp sp (adv inp sl) eq_refl Hi8 HC6 R11 Hn) as T11.
+          cbn [sem fst snd] in T11.
+          assert (Sall : same_store sl s1) by (eapply same_store_trans; [exact S2|]; eapply same_store_trans; [exact Hss2 | exact S3]).
+          cbn [do_sys int_of bind rcase result_ok].
+          exists (outs ++ [Write (x mod 256) (y mod 4294967296)]), (rd m6 (wrap (sp + 1))), sp, m6. split; [|split; [|split]].
+          - change 4294967296 with W.
+            replace (adv inp (emit (y mod W) (x mod 256) s1)) with (adv inp sl) by (apply adv_eq; symmetry; exact (same_store_input _ _ Sall)).
+            eapply runs_trans; [exact R1|].
+            eapply taus_runs; [exact T2|]. eapply taus_runs; [exact T3|]. eapply taus_runs; [exact T4|]. eapply taus_runs; [exact T5|].
+            eapply taus_runs; [exact T6|]. eapply taus_runs; [exact T7|]. eapply taus_runs; [exact T8|].
+            eapply runs_taus; [exact T9|]. eapply taus_trans; [exact T10 | exact T11].
+          - apply (Rel_eqv sr).
+            + cbn. exact (proj1 S3).
+            + cbn. exact (proj1 (proj2 S3)).
+            + cbn. exact (proj1 (proj2 (proj2 S3))).
+            + eapply Rel_same; [exact Hss2|]. exact (conj HC6 (conj H16 (conj HV6 HS6))).
+          - eapply post_trans; [exact (post_end _ _ _ _ (post_start _ _ _ _ (same_store_set_cur st0 eff0) P1) Sall)|].
+            unfold post, top. cbn. repeat split.
+          - eapply frame_only_trans; [exact F1|].
+            eapply frame_only_trans; [apply (frame_only_wr_scratch m1 _ (x mod W) (or_introl ST) (proj1 (in_mem_range _ Sin)))|].
+            eapply frame_only_trans; [apply (frame_only_wr_scratch m2 (sp + 2) (x mod W) Os2 Opos2)|].
+            eapply frame_only_trans; [apply frame_only_T; exact Hk5|].
+            apply (frame_only_wr_scratch m5 (sp + 3) (y mod W) Os3 Opos3). }
         destruct (cge' e n) as [[c1 n1]|] eqn:Ec1; [|discriminate]. cbn [obind] in Hcs.
         destruct (cge' es n1) as [[c2 n2]|] eqn:Ec2; [|discriminate]. cbn [obind] in Hcs. inversion Hcs; subst code n'.
         apply code_at_app in Hc. destruct Hc as (p1 & Hc1 & Hc).
